@@ -287,11 +287,15 @@ def random_history(ck: Check):
                     if rng.random() < 0.12:
                         continue
                     step = np.array([rng.uniform(-0.4, 0.4) for _ in range(dim)])
-                    nxt.append([p + step, max(0.05, r + rng.uniform(-0.05, 0.05))])
+                    nxt.append([p + step, max(0.05, r + rng.uniform(-0.05, 0.05)) if r > 0 else 0.0])
                 if rng.random() < 0.3:
                     nxt.append([np.array([lo[k] + rng.uniform(0, size[k]) for k in range(dim)]), rng.uniform(0.2, 0.9)])
                 rng.shuffle(nxt)
                 pop = nxt
+                if rng.random() < 0.15 and nxt:
+                    # a droplet that has just vanished is still listed (radius 0), somewhere in the frame
+                    k0 = rng.randrange(len(nxt))
+                    nxt[k0] = [nxt[k0][0], 0.0]
                 fr = []
                 for p, r in pop:
                     pp = p.copy()
